@@ -119,6 +119,11 @@ def mutations(rng, spec):
             k = rng.choice(gaps)
             w = {"data3D": 3, "emg": 1, "force3D": 9, "platData": 6}[t]
             m = cp(); m[key][i]["frames"][k] = gen.rframes(rng, [True], w)[0]; yield "gap-frame-made-present", m
+            # a missing frame is not a frame at the origin: a gap filled with exact zeros is different content
+            m = cp(); m[key][i]["frames"][k] = (0.0 if w == 1 else [0.0] * w); yield "gap-frame-made-zero", m
+        zeros = [k for k, f in enumerate(fr) if f is not None and not any((f if isinstance(f, list) else [f]))]
+        if zeros:
+            m = cp(); m[key][i]["frames"][rng.choice(zeros)] = None; yield "zero-frame-made-gap", m
     if t == "platCal" and items:
         i = rng.randrange(len(items))
         m = cp(); m[key][i]["size"][0] = far(items[i]["size"][0]); yield "sample-changed(size)", m
